@@ -1,0 +1,6 @@
+//go:build !verif
+
+package server
+
+// verifPoint is a no-op unless built with the "verif" tag.
+func verifPoint(o *OvsdbServer, point string) {}
